@@ -450,6 +450,24 @@ def ttlv_walk(b, depth=0):
     return items
 
 
+def primitive_overrun(b):
+    """Does some primitive item declare more value / padding bytes than its container still holds?  Then its
+    value is simply not in the frame and no decoder can have decoded it (independent of the library's decoder;
+    structure lengths are followed leniently: a structure is given what is left of its container)."""
+    i = 0
+    while i + 8 <= len(b):
+        typ = b[i + 3]
+        ln = int.from_bytes(b[i + 4:i + 8], "big")
+        pad = (8 - ln % 8) % 8
+        if typ == 1:
+            if primitive_overrun(b[i + 8:i + 8 + ln]):
+                return True
+        elif i + 8 + ln + pad > len(b):
+            return True
+        i += 8 + ln + pad
+    return False
+
+
 def decode_response(raw, default_version):
     """-> observation dict of a response, or raises.  Decoded by the library's ResponseMessage.read under the
     session's default version; when the header echoes a version the library knows nothing about (possible only
